@@ -243,6 +243,14 @@ class OpGen:
                     items.append(txt)
         if not items:
             items.append("__typename")
+        # a spread repeated AFTER an inline fragment that already contains it: the shape on which the
+        # `_seen_fragments` rebinding of collect_fields duplicates nodes
+        import re as _re
+        inner = [m for it in items if it.startswith("... on") or it.startswith("... {") or it.startswith("... @")
+                 for m in _re.findall(r"\.\.\.(F\d+)", it)]
+        if inner and r.random() < 0.5:
+            items.append("..." + r.choice(inner))
+            self.features.add("quirk-candidate")
         # repeat an item sometimes (same-key merging of identical nodes)
         if r.random() < 0.2:
             it = r.choice(items)
